@@ -8,7 +8,7 @@ from ..faults import FaultDB
 from ..hexcommon import item_lists, literal_keys, resolve_val, valspecs
 from ..ref.mpt import RefTrie
 from ..ref.rlp_hp import hp, rlp_encode
-from ..util import Info, Raised, as_nibbles, cm_enter, cm_exit, expect, expect_eq, impl, nibbles_of
+from ..util import Info, Raised, as_nibbles, call_with_headroom, cm_enter, cm_exit, expect, expect_eq, impl, nibbles_of
 
 ID = "C08"
 LEVEL = "exploration"
@@ -78,6 +78,10 @@ def _run_deep(case, info):
             _check_outcome("traverse", got, loc, path, model_nibs, info)
             got2 = impl("traverse_from-only-partial-errors", t.traverse_from, root, path, allowed=(TraversedPartialPath,))
             _check_outcome("traverse_from(@())", got2, loc, path, model_nibs, info)
+            # traversal is iterative by design: same answer for a caller deep in its own recursion
+            got3 = impl("traverse-only-partial-errors", call_with_headroom, 100, lambda: t.traverse(path),
+                        allowed=(TraversedPartialPath,))
+            _check_outcome("traverse (100 frames of stack left)", got3, loc, path, model_nibs, info)
     info.count("deep_chain_levels", len(keys))
     info.label("deep-chain")
     info.nontrivial = len(keys) >= 100
